@@ -180,6 +180,8 @@ def run(pid: str, tier: str, seed: int, args: argparse.Namespace, t0: float) -> 
     nontriv = set()
     feats: dict[str, int] = {}
     for r in records:
+        if r.get("crashed"):
+            continue
         if prop.nontrivial(r["case"], r["impl"]):
             nontriv.add(core.case_hash(r["case"]))
         for f in prop.features(r["case"], r["impl"]):
